@@ -114,6 +114,7 @@ def table_dev(params, c, n, time, inputs):
 
 
 TRACE = []
+TRACE_RT = []   # virtual real time (ns) of each TRACE entry
 REG = {}
 TICKLOG = []   # (scheduler object, time, sorted roots, real ns at start)
 
@@ -132,6 +133,7 @@ def make_classes():
             self.n += 1
             ins = {pid_(k): v for k, v in inputs.items()}
             TRACE.append((self.c, int(time), ins))
+            TRACE_RT.append(asyncio.get_event_loop().time_ns())
             if self.fail_at is not None and self.n == self.fail_at:
                 raise RuntimeError(f"device c{self.c} fails at update {self.n}")
             outs, ca = table_dev(self.params, self.c, self.n, int(time), ins)
@@ -193,7 +195,7 @@ def reset_bus():
 
 
 def run_internal(cfg, devs, speed=(1, 1), initial=0, stim=(), t_end=3_000_000_003, fail=None, adapters=None,
-                 on_start=None):
+                 on_start=None, inject=None):
     """runs the simulation on the internal bus; stim: [(real ns, device id)]; returns dict:
        per: {device: [(time, inputs)]}, error: None|str, tasks info"""
     from tickit.core.management.event_router import InverseWiring
@@ -204,6 +206,7 @@ def run_internal(cfg, devs, speed=(1, 1), initial=0, stim=(), t_end=3_000_000_00
 
     reset_bus()
     TRACE.clear()
+    TRACE_RT.clear()
     REG.clear()
     TICKLOG.clear()
     info = {}
@@ -227,10 +230,26 @@ def run_internal(cfg, devs, speed=(1, 1), initial=0, stim=(), t_end=3_000_000_00
         info["sched"] = sched
         if on_start:
             on_start(loop, sched)
+        if inject is not None:
+            # raise an interrupt of device inject[1] at event-loop step inject[0] (counted from now)
+            base = loop.steps
+
+            def hook(lp):
+                if lp.steps - base == inject[0] and "inj" not in info:
+                    comp = REG.get(inject[1])
+                    if comp is None or not hasattr(comp, "state_producer"):
+                        info["inj"] = None
+                        return
+                    info["inj"] = dict(real=lp.time_ns(), pos=len(TRACE), step=inject[0],
+                                       started=hasattr(sched, "ticker") and hasattr(sched.ticker, "time"))
+                    lp.create_task(comp.raise_interrupt())
+
+            loop.step_hook = hook
         for (r, who) in stim:
             await asyncio.sleep(r / 1e9 - loop.vt)
             await REG[who].raise_interrupt()
         await asyncio.sleep(t_end / 1e9 - loop.vt)
+        info["steps"] = loop.steps
         errs = []
         for t in tasks:
             if t.done() and not t.cancelled() and t.exception() is not None:
@@ -263,7 +282,8 @@ def run_internal(cfg, devs, speed=(1, 1), initial=0, stim=(), t_end=3_000_000_00
         else:
             lv = sys_level[cid(owner.name)]
         ticklog.append((lv, t, roots))
-    return dict(per=per, trace=[(c, t, dict(i)) for (c, t, i) in TRACE], ticklog=ticklog, mticks=mticks,
+    return dict(per=per, trace=[(c, t, dict(i)) for (c, t, i) in TRACE], trace_rt=list(TRACE_RT), ticklog=ticklog,
+                mticks=mticks, inj=info.get("inj"), steps=info.get("steps"),
                 error=err, errors=info.get("errors", []), tasks_done=info.get("tasks_done"))
 
 
